@@ -526,6 +526,9 @@ pub mod prelude {
     pub open spec fn valid_utf8(b: Seq<u8>) -> bool { vstd::utf8::valid_utf8(b) }
     pub assume_specification<'a>[ std::str::from_utf8 ](b: &'a [u8]) -> (r: Result<&'a str, std::str::Utf8Error>)
         ensures r is Ok == valid_utf8(b@), r matches Ok(s) ==> sb(s) == b@;
+    // Utf8Error accessors: no specification beyond their types (their results are unconstrained)
+    pub assume_specification[ std::str::Utf8Error::error_len ](e: &std::str::Utf8Error) -> (r: Option<usize>);
+    pub assume_specification[ std::str::Utf8Error::valid_up_to ](e: &std::str::Utf8Error) -> (r: usize);
     // every &str holds valid UTF-8
     #[verifier::external_body]
     pub broadcast proof fn axiom_str_valid_utf8(a: &str)
